@@ -43,6 +43,31 @@ structure Rep (a : AbstractModel) (m : MDL) : Prop where
   bones : m.affectedBoneNames = a.bones.map (·.flatMap latin1Utf8)
   mats : m.materialNames = a.materials.map (·.flatMap latin1Utf8)
 
+theorem length_specKeysLod (l : List AMesh) : ∀ mb sb, (specKeysLod mb sb l).length = l.length := by
+  induction l with
+  | nil => intro _ _; rfl
+  | cons x xs ih => intro mb sb; simp [specKeysLod, ih]
+
+theorem length_specKeys (l : List ALod) : ∀ n mb sb, (specKeys n mb sb l).length = min n l.length := by
+  induction l with
+  | nil => intro n _ _; cases n <;> simp [specKeys]
+  | cons x xs ih =>
+    intro n mb sb
+    cases n with
+    | zero => simp [specKeys]
+    | succ n => simp only [specKeys, List.length_cons, ih]; omega
+
+/-- a LOD in use of `a` has an entry in the parts list of a model that represents `a` -/
+theorem Rep.lod_lt {a : AbstractModel} {m : MDL} (hrep : Rep a m) {lod : Nat} {l : ALod}
+    (hl : a.lods[lod]? = some l) (hlc : lod < a.lodCount.toNat) : lod < m.lods.length := by
+  have := (congrArg List.length hrep.parts :)
+  rw [List.length_map, length_specKeys] at this
+  have h2 : lod < a.lods.length := by
+    rcases Nat.lt_or_ge lod a.lods.length with h | h
+    · exact h
+    · rw [List.getElem?_eq_none h] at hl; cases hl
+  omega
+
 /-! ## abstract edits as concrete API calls -/
 
 def meshOfA (m : AbstractModel) (lod part : Nat) : Option AMesh := do
